@@ -95,11 +95,15 @@ def rsmi_tokens(rsmi):
     return _TOK[parts[0]], _TOK[parts[1]]
 
 
-def rsmi_differs(rsmi, sides):
-    """formula: the canonical string does not denote the two given side tokens"""
+def rsmi_differs(rsmi, sides, echo_of=None):
+    """formula: the canonical string does not denote the two given side tokens.  A string that was not written through the
+    stubbed serialiser at all is judged only if it merely echoes the input string `echo_of` (then the output depends on how
+    the input was written); any other string is outside what this stub can see and is not judged."""
     t = rsmi_tokens(rsmi)
     if t is None:
-        return True
+        return echo_of is not None and rsmi == echo_of
+    if sides is None:
+        return False
     return NOT(AND(EQ(t[0], sides[0]), EQ(t[1], sides[1])))
 
 
@@ -146,13 +150,15 @@ def h_canon(E, n, backend, omax=2, hmax=1, els=("C", "N", "O")):
                                     lambda e, f: EQ(a[e[0]][e[1]]["order"], b[f[0]][f[1]]["order"]))
     E.check(OR(NOT(giso(G, R)), NOT(giso(H, P))), "canonical-reaction-has-the-same-unmapped-sides", info)
     rsmi1 = inst.canonical_rsmi
-    E.check(rsmi_differs(rsmi1, (side_token(R), side_token(P))), "canonical-string-is-the-serialisation-of-the-canonical-graphs", info)
+    E.check(rsmi_differs(rsmi1, (side_token(R), side_token(P)), echo_of=content_token(G, H)),
+            "canonical-string-is-the-serialisation-of-the-canonical-graphs", info)
     E.check(sorted(R.nodes) != list(range(1, n + 1)) or any(R.nodes[v].get("atom_map") != v for v in R.nodes)
             or any(P.nodes[v].get("atom_map") != v for v in P.nodes), "atom-maps-are-1..N-and-synchronised", info)
     # fixed point
     R2, P2, inst2 = run_canon(backend, R, P)
     E.check(OR(NOT(mol_eq(R, R2)), NOT(mol_eq(P, P2))), "canonical-form-is-a-fixed-point", info)
-    E.check(rsmi_differs(inst2.canonical_rsmi, rsmi_tokens(rsmi1) or ((), ())), "canonical-string-of-the-canonical-form-differs", info)
+    E.check(rsmi_differs(inst2.canonical_rsmi, rsmi_tokens(rsmi1), echo_of=content_token(R, P)),
+            "canonical-string-of-the-canonical-form-differs", info)
     # the same canonicaliser object used again: for the same reaction stored in another atom order, and for another
     # reaction with the same mapped reactants (product side = reactant side)
     Gr = relabel(G, {v: v for v in G.nodes}, order=list(reversed(list(G.nodes))))
